@@ -9,7 +9,7 @@ ID = 'C04'
 LEVEL = 'exploration'
 NEEDS = ('threads', 'aio', 'proc')
 PROC_READY = True
-QUICK = dict(runs=5000, wall=85)
+QUICK = dict(runs=12000, wall=85)
 THOROUGH = dict(runs=300000, wall=1500)
 RULE = ('scenario = servlet tree (leaves with/without batching, Sequential, Ensemble fail_fast on/off, Switch), Server or AsyncServer, '
         '1-4 concurrent callers (call + stream(return_exceptions)); fault plan = failing request subset x site in {Worker.call, '
